@@ -373,7 +373,9 @@ def finish(ctx, level="model_checking", rule="", assumptions=(), trusted=()):
     cov.update(ctx.extra)
     ev = dict(property_id=ctx.prop, tier=ctx.tier, seed=ctx.seed, level=level, coverage=cov,
               assumptions=list(assumptions), wall_s=round(wall, 1), violations=len(ctx.rejected))
-    if not ctx.is_replay:       # a --replay run judges one recorded case and must not replace the evidence of the last full run
+    # a --replay run judges one recorded case, and a run against a scratch worktree (VERIF_REPO: seeded changes) is not about /repo:
+    # neither may replace the evidence of the last full run on /repo itself
+    if not ctx.is_replay and REPO == "/repo":
         # checks beyond the listed properties (X..: specification growth) report under extra/, not among the properties' evidence
         sub = "evidence" if ctx.prop.startswith("C") else "extra"
         os.makedirs(os.path.join(VERIF, sub), exist_ok=True)
